@@ -135,12 +135,21 @@ def run_impl(pid, tier):
                                     f"(cast {got.get('cast')}, derefs {got.get('derefs')})")
                 if got["vis"] != want["vis"]:
                     problems.append(f"get_{want['name']}() visibility {got['vis']}, declared {want['vis']}")
+            if oracle.get("gevals"):
+                gev = (files.get(("g",)) or {}).get("evals")
+                if gev is None:
+                    problems.append("module g (extern values only) has no output file: its accessors are missing")
+                else:
+                    for want in oracle["gevals"]:
+                        got = next((x for x in gev if x["name"] == want["name"]), None)
+                        if got is None or got["addr"] != want["addr"] or conform._ty_norm(got["ret"].get("t")) != conform._ty_norm(want["ty"]):
+                            problems.append(f"g::get_{want['name']}() is {got}, declared {want}")
             if ptr == 8 and cid in pl.cfail["host"]:
                 problems.append(f"the emitted accessors do not compile: {pl.cfail['host'][cid]}")
         if problems:
             res.violation("; ".join(problems[:3]), payload(case, obs))
         if cid % 397 == 0:
-            res.sample({"impl": case["input"]["mods"][0]["impls"], "evals": case["input"]["mods"][0]["evals"],
+            res.sample({"impl": case["input"]["mods"][-1]["impls"], "evals": case["input"]["mods"][-1]["evals"],
                         "oracle": {k: oracle[k] for k in ("funcs", "evals", "tsingle", "esingle")}})
     from . import execrig, execplan
     execrig.apply(pl, res, lambda c: execplan.plan_impl(c, pid), payload, cov)
